@@ -404,6 +404,15 @@ func families(n int) []family {
 				s.Inputs = []file{mk("f1", m1), mk("f2", m2)}
 				f.states = append(f.states, s)
 			}
+			// ... and the same with one and with three declared inputs (a shortcut for the single-input case)
+			s1 := base()
+			s1.Inputs = []file{{Path: "f1", Missing: m1 == 0, Content: map[int]string{0: "", 1: "", 2: "x"}[m1]}}
+			f.states = append(f.states, s1)
+			for _, m3 := range []int{0, 1} {
+				s3 := base()
+				s3.Inputs = []file{{Path: "f0", Content: "z"}, {Path: "f1", Missing: m1 == 0, Content: map[int]string{0: "", 1: "", 2: "x"}[m1]}, {Path: "f2", Missing: m3 == 0}}
+				f.states = append(f.states, s3)
+			}
 		}
 		fams = append(fams, f)
 	}
